@@ -759,6 +759,13 @@ def full_api_adjoint(rep, seed, n=80):
             ("div_const_bigger", lambda x: algopy.sum(x[:2] / numpy.array([[1., 2.], [3., 4.], [5., 6.]]) + numpy.array([[1., 2.], [3., 4.], [5., 6.]]) / x[2:])),
             ("special", lambda x: algopy.sum(algopy.special.erf(x) * algopy.special.expit(x) + algopy.special.dawsn(x))),
             ("elementary", lambda x: algopy.sum(algopy.exp(algopy.sin(x)) * algopy.log(x * x + 1.) + algopy.sqrt(x * x + 2.) * algopy.tan(x * 0.5) + algopy.cos(x))),
+            # the same node as both arguments of a binary function (both adjoints accumulate into one buffer)
+            ("dot_same_node", lambda x: (lambda M: algopy.sum(algopy.dot(M, M) * W22))(algopy.reshape(x, (2, 2)) + A0)),
+            ("dot_vv_same_node", lambda x: (lambda v: algopy.dot(v, v))(x * x + 1.)),
+            ("outer_same_node", lambda x: (lambda v: algopy.sum(algopy.outer(v, v) * numpy.array([[1., 2., 3., 4.], [5., 6., 7., 8.], [9., 10., 11., 12.], [13., 14., 15., 17.]])))(x * x)),
+            ("solve_same_node", lambda x: (lambda M: algopy.sum(algopy.solve(M, M) * W22) + algopy.sum(M))(algopy.reshape(x, (2, 2)) + A0)),
+            ("div_same_node", lambda x: (lambda v: algopy.sum(v / v + v * v - v + (v - v)))(x * x + 1.)),
+            ("pow_same_node", lambda x: (lambda v: algopy.sum(v ** v))(x * x + 0.5)),
         ]
 
     P_ = progs()
